@@ -51,8 +51,11 @@ contract(
         # neighbour-search protocol: every moved atom is taken out of its cell before and re-added after the move
         "bracketed(calls(), a_CG) and bracketed(calls(), a_CD)",
         "n_calls('remove_cell') == 2 and n_calls('add_cell') == 2",
-        # the stored torsion is the measured one
+        # the stored torsion is the one measured on the coordinates AFTER the move (C15: the next request rotates by
+        # requested - stored, so a stale stored value puts every later torsion off)
         "residue.dihedrals[0] is calls_of('dihedral')[0].ret",
+        "at(calls_of('dihedral')[0].args['coords1'], a_N) and at(calls_of('dihedral')[0].args['coords2'], a_CA)",
+        "at(calls_of('dihedral')[0].args['coords3'], a_CB) and at(calls_of('dihedral')[0].args['coords4'], a_CG)",
     ],
     raises={"ValueError": "True"},
     use=["pdb2pqr.quatfit:qchichange"],
@@ -66,6 +69,10 @@ contract(
 
 def n_calls(name):
     return len(calls_of(name))
+
+
+def at(c, a):
+    return c[0] == a.x and c[1] == a.y and c[2] == a.z
 
 
 def bracketed(trace, atom):
